@@ -102,6 +102,7 @@ func (e *Exec) resetOpaque() {
 	delete(e.opaque, "tracing")
 	delete(e.opaque, "modeldigests")
 	delete(e.opaque, "hmacmemo")
+	delete(e.opaque, "lastbig")
 	delete(e.opaque, "pooladv")
 	delete(e.opaque, "randfail")
 	delete(e.opaque, "deferOwner")
